@@ -180,6 +180,12 @@ type responseWrapper interface {
 	bodyContents() []byte
 }
 
+// isInformational tells whether status is an interim status: net/http sends
+// these at once and still expects the final one (101 ends the HTTP exchange).
+func isInformational(status int) bool {
+	return status >= 100 && status <= 199 && status != http.StatusSwitchingProtocols
+}
+
 type warnResponseWrapper struct {
 	w             http.ResponseWriter
 	headerWritten bool
@@ -206,6 +212,11 @@ func (wr *warnResponseWrapper) Write(b []byte) (int, error) {
 
 // WriteHeader implements http.ResponseWriter.
 func (wr *warnResponseWrapper) WriteHeader(status int) {
+	if isInformational(status) && !wr.headerWritten {
+		// e.g. 103 Early Hints: sent at once, the final status is still to come
+		wr.w.WriteHeader(status)
+		return
+	}
 	if !wr.headerWritten {
 		// If the header hasn't been written, record the status for response
 		// validation.
@@ -262,6 +273,11 @@ func (wr *strictResponseWrapper) Write(b []byte) (int, error) {
 
 // WriteHeader implements http.ResponseWriter.
 func (wr *strictResponseWrapper) WriteHeader(status int) {
+	if isInformational(status) && !wr.headerWritten {
+		// e.g. 103 Early Hints: sent at once, the final status is still to come
+		wr.w.WriteHeader(status)
+		return
+	}
 	if !wr.headerWritten {
 		wr.status = status
 		wr.headerWritten = true
